@@ -43,9 +43,9 @@ ASSUMPTIONS = [
     "Repeat intervals are far longer than an execution (no asynchronous re-sends)",
 ]
 
-ALL_KINDS = ('P', 'I', 'C', 'F', 'G', 'Z', 'R', 'X')
+ALL_KINDS = ('P', 'I', 'C', 'F', 'G', 'Z', 'R', 'X', 'H')
 INIT_KINDS = ('P', 'Q', 'I', 'J')     # Q, J: no initialisation of their own (by event only)
-ETYPE = {'Q': 'ev', 'J': 'put', 'P': 'ev', 'I': 'put', 'C': 'inc', 'F': 'tg', 'G': 'tg', 'Z': 'tg', 'R': 'rp', 'X': 'put'}
+ETYPE = {'H': 'tg', 'Q': 'ev', 'J': 'put', 'P': 'ev', 'I': 'put', 'C': 'inc', 'F': 'tg', 'G': 'tg', 'Z': 'tg', 'R': 'rp', 'X': 'put'}
 
 
 class Rec(Exception):
@@ -109,7 +109,7 @@ def ext_sequences(kinds, maxlen, variants):
     alpha = []
     for i, k in enumerate(kinds):
         for v in variants:
-            if v == 'missing' and k in 'FGZRC':
+            if v == 'missing' and k in 'FGZRCH':
                 continue
             alpha.append((i, v))
     out = []
@@ -211,6 +211,10 @@ class RefNet:
             elif k in 'GZ':
                 self.st[j] = 'c' if self.st[j] == 'a' else 'a'
                 val = self.st[j]
+            elif k == 'H':
+                # the exit action of the intermediate state sends an event to its own FSM: only
+                # the entry action (or a zero timer) may request a chained transition
+                raise Rec(j)
             elif k == 'R':
                 changed = False
                 val = 0
@@ -219,7 +223,7 @@ class RefNet:
                     self.fire(e, val)
             for e in self.out_edges(j, 'every'):
                 self.fire(e, val)
-            if k in 'FGZX':
+            if k in 'FGZXH':
                 # X (InputExp): every accepted put re-enters state 'valid'
                 for e in self.out_edges(j, 'enter'):
                     self.fire(e, val)
@@ -288,6 +292,18 @@ class GChain(edzed.FSM):
         self.event('tg2')
 
 
+class HBadExit(edzed.FSM):
+    """Chained transition whose intermediate state's EXIT action sends one more event."""
+    STATES = ['a', 'b', 'c', 'x']
+    EVENTS = [['tg', ['a'], 'b'], ['tg2', ['b'], 'c'], ['tg3', None, 'x'], ['tg', ['c', 'x'], 'a']]
+
+    def enter_b(self):
+        self.event('tg2')
+
+    def exit_b(self):
+        self.event('tg3')
+
+
 class ZChain(edzed.FSM):
     STATES = ['a', 'b', 'c']
     EVENTS = [['tg', ['a'], 'b'], ['tg', ['c'], 'a']]
@@ -352,6 +368,8 @@ def build(cfg, gate):
                 kw['on_enter_b'] = list(ens)
                 kw['on_enter_c'] = list(ens)
             blk = (GChain if k == 'G' else ZChain)(names[i], **kw)
+        elif k == 'H':
+            blk = HBadExit(names[i], **kw)
         elif k == 'X':
             if ens:
                 kw['on_enter_valid'] = ens
@@ -374,7 +392,7 @@ def read_states(kinds, blocks):
             out.append(b.output)
         elif k == 'X':
             out.append(b.output)
-        elif k in 'FGZ':
+        elif k in 'FGZH':
             out.append(b.state)
         else:
             out.append(0)
